@@ -187,9 +187,60 @@ def run_roots(case):
   return R(None, len(poly) > 2, (inside, g != 1, typ))
 
 
+# ---------------------------------------------------- plain int / float coefficients
+def gen_plain(run):
+  names = [n for n in FACTORS if n not in ("r0", "r1", "r-1", "c3/5+-4/5j")]
+  for n in range(1, 4):
+    for combo in itertools.combinations_with_replacement(names, n):
+      deg = sum(len(FACTORS[c][0]) - 1 for c in combo)
+      if deg > 3:
+        continue
+      yield (list(combo),)
+
+
+def run_plain(case):
+  """Denominators with plain int / float coefficients and every gain of a grid (ints 1..128, k/10):
+  the verdict must not depend on the leading coefficient, nor may it raise.  Only pole sets whose
+  exact step-down stays at least 1/50 away from |k| = 1 are used, so that float rounding inside the
+  library cannot legitimately change a verdict."""
+  combo = case[0]
+  poly = [F(1)]
+  inside = True
+  for c in combo:
+    coefs, ins = FACTORS[c]
+    poly = lpcref.polymul(poly, coefs)
+    inside = inside and ins
+  try:
+    ks = lpcref.step_down(poly)
+  except lpcref.ZeroError:
+    return R(None, False, "critical-excluded")
+  if any(abs(abs(k) - 1) < F(1, 50) for k in ks):
+    return R(None, False, "near-critical-excluded")
+  gains = [g for k in range(1, 129) for g in (k, -k)] + [k / 10. for k in range(1, 101)] + [-k / 10. for k in range(1, 101, 7)]
+  n = 0
+  for g in gains:
+    den = [float(v) * g for v in poly]
+    if isinstance(g, int) and all(F(v).denominator == 1 for v in poly):
+      den = [int(v) * g for v in poly]
+    for numer in ([1], [2., -1.]):
+      n += 1
+      try:
+        st = parcor_stable(ZFilter(list(numer), list(den)))
+      except Exception as exc:
+        return bad("stable:exception:" + type(exc).__name__, "parcor_stable raised for plain int/float coefficients",
+                   {"stable": inside, "poles": combo, "gain": g}, str(exc)[:200], True)
+      if not isinstance(st, bool) or st != inside:
+        return bad("stable:roots", "parcor_stable must be True exactly when every pole is strictly inside the "
+                   "unit circle, whatever the leading denominator coefficient (plain int/float coefficients)",
+                   {"stable": inside, "poles": combo, "gain": g}, st, True)
+  return R(None, True, (inside, len(poly)), n)
+
+
 KINDS = OrderedDict([
   ("reflection", Kind(gen_reflection, run_reflection, chunk=20,
                       rule="reflection vectors x gains x construction routes; non-trivial: order >= 2")),
   ("roots", Kind(gen_roots, run_roots, chunk=40,
                  rule="multisets of root factors (degree <= 4) x gains x numerators; non-trivial: degree >= 2")),
+  ("plain-gains", Kind(gen_plain, run_plain, chunk=2,
+                       rule="multisets of non-critical root factors (degree <= 3) x 469 int/float gains x 2 numerators")),
 ])
